@@ -51,13 +51,18 @@ def pack(traces, out):
     json.dump(traces, open(out, "w"))
 
 
-def run_tlc(cfg, module, env=None, workers=4, timeout=600, extra=None, gen=GEN, dfs=True):
+def run_tlc(cfg, module, env=None, workers=4, timeout=600, extra=None, gen=GEN, dfs=True, heap=None):
+    """dfs=True: trace validation (single worker, depth-first queue, small heap);
+    otherwise exhaustive model checking. The heap is capped explicitly: TLC sizes its
+    fingerprint set from the maximal heap and the JVM default (1/4 of RAM) times 16
+    parallel validation processes exhausts the machine."""
     meta = tempfile.mkdtemp(prefix="tlcmeta_")
     e = dict(os.environ)
     if env:
         e.update(env)
-    if dfs:
-        e["JAVA_TOOL_OPTIONS"] = "-Dtlc2.tool.queue.IStateQueue=StateDeque"
+    heap = heap or os.environ.get("VERIF_TLC_HEAP_TRACE" if dfs else "VERIF_TLC_HEAP_MC", "1200m" if dfs else "6g")
+    e["JAVA_TOOL_OPTIONS"] = f"-Xmx{heap}" + (" -Dtlc2.tool.queue.IStateQueue=StateDeque" if dfs else "")
+    e.pop("_JAVA_OPTIONS", None)
     cmd = ["tlc", "-workers", str(workers), "-metadir", meta, "-config", cfg, module] + (extra or [])
     try:
         r = subprocess.run(cmd, cwd=gen, env=e, capture_output=True, text=True, timeout=timeout)
